@@ -101,6 +101,27 @@ def one_history(ctx, rng, kind, with_objective=True, max_constraints=4):
         hist.append(["objective", obj])
     lineage = set()
     recorded = []
+
+    def interleaved_validity(when):
+        """is_solution_valid between the steps of the history (not only at its end)"""
+        if rng.random() < 0.5:
+            return True
+        vs = sorted({x for x in oracles.true_vars(H) if not (isinstance(x, str) and x.startswith("__a"))} |
+                    {x for _, p in recorded for x in p.vars()}, key=repr)
+        for _ in range(3):
+            x = {v: rng.choice(vals) for v in vs}
+            want = all(oracles.REL[R](p.value(x)) for R, p in recorded)
+            ok, got = ctx.call("is_solution_valid", H.is_solution_valid, x, _w={"model": T.__name__, "history": hist})
+            ctx.count("interleaved-validity-checks")
+            if not ok:
+                return False
+            if bool(got) != want:
+                ctx.violation("is_solution_valid-disagrees:interleaved", "%s: is_solution_valid(%r)=%r, relations so far say %r" % (when, x, got, want),
+                              {"model": T.__name__, "history": hist})
+                return False
+        return True
+    if not interleaved_validity("before any constraint"):
+        return
     ncon = rng.choice([1, 1, 2, 2, 3, 4][:max_constraints + 2])
     nontrivial_any = False
     for ci in range(ncon):
@@ -195,6 +216,8 @@ def one_history(ctx, rng, kind, with_objective=True, max_constraints=4):
             ctx.violation(tagp + "num_ancillas-too-small", "num_ancillas=%d but %d ancilla names exist" % (H.num_ancillas, len(lineage)), w)
             return
         recorded.append((R, Pp))
+        if not interleaved_validity("after constraint %d" % (ci + 1)):
+            return
         rel = oracles.REL[R]
         sat = rel(ptab)
         nontriv = bool(sat.any() and not sat.all())
